@@ -128,7 +128,9 @@ Section Exec.
                 match x with Some y => sset s1 y v | None => s1 end in
               match exec fuel' (f_body fd) (bind_params 0 (map (eval_atom s) args) ++ globals_of s) oracle with
               | ONormal s' o' => ONormal (after s' VNil) o'       (* fell off the end: zero result *)
-              | OReturn v s' o' => ONormal (after s' v) o'
+              | OReturn v s' o' =>
+                  (* a single-value call of a function that handed back a non-nil error is ill-typed *)
+                  match sget s' VERR with VNil => ONormal (after s' v) o' | VPtr _ => OOutOfFuel end
               | r => r
               end
           end
@@ -149,7 +151,7 @@ Section Exec.
               end
             else ONormal s o'
           end
-      | SReturn a => OReturn (eval_atom s a) s oracle
+      | SReturn a => OReturn (eval_atom s a) (sset s VERR VNil) oracle
       | SReturn2 a e => OReturn (eval_atom s a) (sset s VERR (eval_atom s e)) oracle
       | SCall2 _ x xe f args =>
           match nth_error (p_funcs prog) f with
@@ -183,7 +185,8 @@ Section Exec.
                       match exec fuel' (f_body fd)
                                  (bind_params 0 (VPtr None :: map (eval_atom s) args) ++ globals_of s) oracle with
                       | ONormal s' o' => ONormal (after s' VNil) o'
-                      | OReturn v s' o' => ONormal (after s' v) o'
+                      | OReturn v s' o' =>
+                          match sget s' VERR with VNil => ONormal (after s' v) o' | VPtr _ => OOutOfFuel end
                       | r => r
                       end
                   end
